@@ -1,7 +1,7 @@
 """Contracts for verif/axis.py and the time conversions of verif/util.py (C11), plus name -> object lookups (C13).
 
 The calendar bucket functions go through datetime / calendar (C code the proxies cannot enter): they are checked
-against an independently written proleptic-Gregorian calendar for EVERY day 1970-01-01 .. 2100-12-31 at five
+against an independently written proleptic-Gregorian calendar for EVERY day 1900-01-01 .. 2100-12-31 (unix times before 1970 are negative) at five
 seconds-of-day each (bounded in the second of day, exhaustive in the day); the date conversions are enumerated
 for every day 1900-01-01 .. 2100-12-31, which is the complete domain the property names."""
 import datetime
@@ -123,7 +123,7 @@ def _bucket(axis_name):
 
     def body_tz():
         ax = getattr(verif.axis, axis_name)()
-        z0, z1 = days_from_civil(1970, 1, 1), days_from_civil(2100, 12, 31)
+        z0, z1 = days_from_civil(1900, 1, 1), days_from_civil(2100, 12, 31)
         spec = BUCKET_SPEC[axis_name]
         cases = 0
         chunk = 4000
@@ -150,7 +150,7 @@ def _bucket(axis_name):
 
 for _ax in sorted(BUCKET_SPEC):
     _enumerated("verif.axis.%s.compute_from_times#BOUNDED:calendar-bucket" % _ax, ("C11",),
-                "every day 1970-01-01..2100-12-31 (exhaustive) x seconds of day {0, 1, 1800, 43200, 86399}, against an independent civil calendar, with the process in UTC and in PST8",
+                "every day 1900-01-01..2100-12-31 (exhaustive; times before 1970 are negative) x seconds of day {0, 1, 1800, 43200, 86399}, against an independent civil calendar, with the process in UTC and in PST8",
                 _bucket(_ax), ["verif.axis.%s.compute_from_times" % _ax])
 
 
